@@ -391,3 +391,30 @@ func NewServer(env *Env, pipelining, directIO bool) *rpc.Server {
 	srv.SetDirectIO(directIO)
 	return srv
 }
+
+// WaitStartedIDs waits until a handler execution has started for every listed id.
+func (e *Env) WaitStartedIDs(ids []uint64, d time.Duration) bool {
+	deadline := time.Now().Add(d)
+	for {
+		e.mu.Lock()
+		seen := map[uint64]bool{}
+		for i := range e.log {
+			seen[e.log[i].ID] = true
+		}
+		e.mu.Unlock()
+		all := true
+		for _, id := range ids {
+			if !seen[id] {
+				all = false
+				break
+			}
+		}
+		if all {
+			return true
+		}
+		if time.Now().After(deadline) {
+			return false
+		}
+		time.Sleep(100 * time.Microsecond)
+	}
+}
